@@ -123,23 +123,213 @@ theorem buildPolygon_skip (o : Opts) (d : Data) (r : RelationE) (skip : Skip) :
   generalize polyMembers d (tagMap r.tags) r.members skip = pp
   by_cases h0 : pp.outer = [] ∧ ¬ o.includeInvalidPolygons = true
   · have : ¬ (pp.outer.length = 1 ∧ pp.outerCount = 1 ∧ ringValid (ringOf pp.outer 1) = true) := by simp [h0.1]
-    simp only [h0, and_self, if_true, this, if_false]
-  · simp only [h0, if_false]
+    rw [if_pos h0, if_neg this]
+  · rw [if_neg h0]
     by_cases h1 : pp.outer.length = 1 ∧ pp.outerCount = 1
-    · simp only [h1, and_self, if_true, true_and]
+    · rw [if_pos h1]
       by_cases hv : ringValid (ringOf pp.outer 1) = true
-      · simp only [hv, not_true_eq_false, if_false, if_true]
+      · have h3 : pp.outer.length = 1 ∧ pp.outerCount = 1 ∧ ringValid (ringOf pp.outer 1) = true := ⟨h1.1, h1.2, hv⟩
+        rw [if_neg (by simpa using hv), if_pos h3]
         cases pp.outerWay with
         | none => rfl
         | some ow =>
           simp only
           split <;> rfl
-      · simp only [hv, not_false_eq_true, if_true, if_false]
+      · have h3 : ¬ (pp.outer.length = 1 ∧ pp.outerCount = 1 ∧ ringValid (ringOf pp.outer 1) = true) := fun h => hv h.2.2
+        rw [if_pos hv, if_neg h3]
     · have : ¬ (pp.outer.length = 1 ∧ pp.outerCount = 1 ∧ ringValid (ringOf pp.outer 1) = true) := by
         intro h; exact h1 ⟨h.1, h.2.1⟩
-      simp only [h1, this, if_false]
+      rw [if_neg h1, if_neg this]
       split
       · rfl
       · split <;> rfl
+
+theorem withInvalid_noID (o : Opts) : (withInvalid o).noID = o.noID := rfl
+theorem withInvalid_inc (o : Opts) : (withInvalid o).includeInvalidPolygons = true := rfl
+
+theorem filterMap_length_mono {α β : Type} (f g : α → Option β) (l : List α) (h : ∀ a, (f a).isSome → (g a).isSome) :
+    (l.filterMap f).length ≤ (l.filterMap g).length := by
+  induction l with
+  | nil => simp
+  | cons a rest ih =>
+    simp only [List.filterMap_cons]
+    cases hf : f a with
+    | none =>
+      cases hg : g a with
+      | none => simpa using ih
+      | some y => simp only [List.length_cons]; omega
+    | some x =>
+      have := h a (by simp [hf])
+      cases hg : g a with
+      | none => simp [hg] at this
+      | some y => simp only [List.length_cons]; omega
+
+/-- **turning the option on never loses a feature and changes nothing but its geometry** -/
+theorem buildPolygon_keeps (o : Opts) (hoff : o.includeInvalidPolygons = false) (d : Data) (r : RelationE) (skip : Skip)
+    (f : Feature) (h : (buildPolygon o d r skip).1 = some f) :
+    ∃ f', (buildPolygon (withInvalid o) d r skip).1 = some f' ∧ SameButGeom f f' := by
+  unfold buildPolygon at h ⊢
+  simp only [relationsProp_withInvalid, metaProp_withInvalid, withInvalid_noID, withInvalid_inc, hoff] at h ⊢
+  generalize polyMembers d (tagMap r.tags) r.members skip = pp at h ⊢
+  by_cases he : pp.outer = []
+  · simp [he] at h
+  · simp only [he, false_and, if_false] at h ⊢
+    by_cases h1 : pp.outer.length = 1 ∧ pp.outerCount = 1
+    · rw [if_pos h1] at h ⊢
+      exact ⟨f, h, SameButGeom.refl f⟩
+    · rw [if_neg h1] at h ⊢
+      have hlen1 := filterMap_length_mono
+        (fun os => if ¬ false = true ∧ ¬ ringValid (ringOf os 1) = true then none else some [ringOf os 1])
+        (fun os => if ¬ True ∧ ¬ ringValid (ringOf os 1) = true then none else some [ringOf os 1])
+        (join pp.outer) (by intro a _; simp)
+      have hlen2 := fold_add_length_off (fun is => ringOf is (-1)) (join pp.inner)
+        (List.filterMap (fun os => if ¬ false = true ∧ ¬ ringValid (ringOf os 1) = true then none else some [ringOf os 1]) (join pp.outer))
+      have hlen3 := fold_add_length true (fun is => ringOf is (-1)) (join pp.inner)
+        (List.filterMap (fun os => if ¬ True ∧ ¬ ringValid (ringOf os 1) = true then none else some [ringOf os 1]) (join pp.outer))
+      generalize List.filterMap (fun os => if ¬ false = true ∧ ¬ ringValid (ringOf os 1) = true then none else some [ringOf os 1]) (join pp.outer) = offR at h hlen1 hlen2
+      generalize List.filterMap (fun os => if ¬ True ∧ ¬ ringValid (ringOf os 1) = true then none else some [ringOf os 1]) (join pp.outer) = onR at hlen1 hlen3 ⊢
+      generalize List.foldl (fun mp is => addToMultiPolygon mp (ringOf is (-1)) false) offR (join pp.inner) = m at h hlen2
+      generalize List.foldl (fun mp is => addToMultiPolygon mp (ringOf is (-1)) true) onR (join pp.inner) = m' at hlen3 ⊢
+      simp only [not_true_eq_false, and_false, if_false]
+      by_cases hoffR : offR = []
+      · simp [hoffR] at h
+      · have hm : m ≠ [] := by
+          intro e; subst e
+          have : offR.length = 0 := by simpa using hlen2.symm
+          exact hoffR (List.length_eq_zero_iff.mp this)
+        have hm' : m' ≠ [] := by
+          intro e; subst e
+          have h1 : offR.length ≠ 0 := fun e => hoffR (List.length_eq_zero_iff.mp e)
+          simp only [List.length_nil] at hlen3
+          omega
+        simp only [hoffR, false_and, if_false] at h
+        match m, hm, m', hm' with
+        | [a], _, [b], _ =>
+          simp only [Option.some.injEq] at h
+          exact ⟨_, rfl, by subst h; rfl⟩
+        | [a], _, b :: b2 :: bs, _ =>
+          simp only [Option.some.injEq] at h
+          exact ⟨_, rfl, by subst h; rfl⟩
+        | a :: a2 :: as, _, [b], _ =>
+          simp only [Option.some.injEq] at h
+          exact ⟨_, rfl, by subst h; rfl⟩
+        | a :: a2 :: as, _, b :: b2 :: bs, _ =>
+          simp only [Option.some.injEq] at h
+          exact ⟨_, rfl, by subst h; rfl⟩
+
+/-! ### the whole output -/
+
+/-- a feature with its geometry blanked: what identifies the element and everything the option must not touch -/
+def eraseGeom (f : Feature) : Feature := { f with geom := .point (0, 0) }
+
+theorem eraseGeom_of_same {f f' : Feature} (h : SameButGeom f f') : eraseGeom f' = eraseGeom f := by
+  unfold SameButGeom at h
+  rw [h]; rfl
+
+theorem buildRoute_withInvalid (o : Opts) (d : Data) (r : RelationE) (skip : Skip) :
+    buildRoute (withInvalid o) d r skip = buildRoute o d r skip := rfl
+
+theorem wayPass_withInvalid (o : Opts) (d : Data) (isP : WayE → Bool) (skip : Skip) :
+    wayPass (withInvalid o) d isP skip = wayPass o d isP skip := rfl
+
+theorem nodePass_withInvalid (o : Opts) (d : Data) : nodePass (withInvalid o) d = nodePass o d := rfl
+
+theorem buildPolygon_sublist (o : Opts) (hoff : o.includeInvalidPolygons = false) (d : Data) (r : RelationE) (skip : Skip) :
+    ((buildPolygon o d r skip).1.toList.map eraseGeom).Sublist ((buildPolygon (withInvalid o) d r skip).1.toList.map eraseGeom) := by
+  cases h : (buildPolygon o d r skip).1 with
+  | none => simp
+  | some f =>
+    obtain ⟨f', h', hs⟩ := buildPolygon_keeps o hoff d r skip f h
+    simp [h', eraseGeom_of_same hs]
+
+/-- the relation pass as a fold of one step -/
+def relStep (o : Opts) (d : Data) (st : List Feature × Skip) (r : RelationE) : List Feature × Skip :=
+  let tt := findTag r.tags "type"
+  if tt = "route" then
+    let (f, s) := buildRoute o d r st.2
+    (st.1 ++ f.toList, s)
+  else if tt = "multipolygon" ∨ tt = "boundary" then
+    let (f, s) := buildPolygon o d r st.2
+    (st.1 ++ f.toList, s)
+  else st
+
+theorem relationPass_eq_fold (o : Opts) (d : Data) : relationPass o d = d.relations.foldl (relStep o d) ([], []) := rfl
+
+theorem relFold_includeInvalid (o : Opts) (hoff : o.includeInvalidPolygons = false) (d : Data) :
+    ∀ (rs : List RelationE) (acc acc' : List Feature × Skip), acc'.2 = acc.2 →
+      (acc.1.map eraseGeom).Sublist (acc'.1.map eraseGeom) →
+      (rs.foldl (relStep (withInvalid o) d) acc').2 = (rs.foldl (relStep o d) acc).2 ∧
+      ((rs.foldl (relStep o d) acc).1.map eraseGeom).Sublist ((rs.foldl (relStep (withInvalid o) d) acc').1.map eraseGeom) := by
+  intro rs
+  induction rs with
+  | nil => intro acc acc' h2 hs; exact ⟨h2, hs⟩
+  | cons r rest ih =>
+    intro acc acc' h2 hs
+    simp only [List.foldl_cons]
+    apply ih
+    · unfold relStep
+      simp only [h2]
+      split
+      · rfl
+      · split
+        · simp only [buildPolygon_skip]
+        · exact h2
+    · unfold relStep
+      simp only [h2]
+      split
+      · simp only [buildRoute_withInvalid, List.map_append]
+        exact List.Sublist.append hs (List.Sublist.refl _)
+      · split
+        · simp only [List.map_append]
+          exact List.Sublist.append hs (buildPolygon_sublist o hoff d r acc.2)
+        · exact hs
+
+/-- **IncludeInvalidPolygons only adds, and only to multipolygon relations**: with the option on, the way pass
+    sees the same skippable set and way and node features are identical; and every feature of the output without
+    the option is still in the output with it, in the same order, identical but possibly for its geometry -/
+theorem convert_includeInvalid (o : Opts) (hoff : o.includeInvalidPolygons = false) (isP : WayE → Bool) (d : Data) :
+    (relationPass (withInvalid o) d).2 = (relationPass o d).2 ∧
+    convert (withInvalid o) isP d =
+      (relationPass (withInvalid o) d).1 ++ d.ways.filterMap (wayPass o d isP (relationPass o d).2) ++ d.nodes.filterMap (nodePass o d) ∧
+    ((convert o isP d).map eraseGeom).Sublist ((convert (withInvalid o) isP d).map eraseGeom) := by
+  have hf := relFold_includeInvalid o hoff d d.relations ([], []) ([], []) rfl (List.Sublist.refl _)
+  rw [← relationPass_eq_fold, ← relationPass_eq_fold] at hf
+  have hc : convert (withInvalid o) isP d =
+      (relationPass (withInvalid o) d).1 ++ d.ways.filterMap (wayPass o d isP (relationPass o d).2) ++ d.nodes.filterMap (nodePass o d) := by
+    unfold convert
+    simp only [wayPass_withInvalid, nodePass_withInvalid, hf.1]
+  refine ⟨hf.1, hc, ?_⟩
+  rw [hc]
+  unfold convert
+  simp only [List.map_append]
+  exact List.Sublist.append (List.Sublist.append hf.2 (List.Sublist.refl _)) (List.Sublist.refl _)
+
+/-- a multipolygon with a single outer member does not consult the option at all -/
+theorem buildPolygon_single_indep (o : Opts) (d : Data) (r : RelationE) (skip : Skip)
+    (hne : (polyMembers d (tagMap r.tags) r.members skip).outer.length = 1)
+    (hc : (polyMembers d (tagMap r.tags) r.members skip).outerCount = 1) :
+    buildPolygon (withInvalid o) d r skip = buildPolygon o d r skip := by
+  unfold buildPolygon
+  simp only [relationsProp_withInvalid, metaProp_withInvalid, withInvalid_noID, withInvalid_inc]
+  generalize polyMembers d (tagMap r.tags) r.members skip = pp at hne hc
+  have he : pp.outer ≠ [] := by intro e; rw [e] at hne; cases hne
+  simp only [he, false_and, if_false, hne, hc, and_self, if_true]
+
+/-- without the option, every ring of an emitted multipolygon's outer list is closed with at least four points -/
+theorem ringValid_iff (r : List P) : ringValid r = true ↔ 4 ≤ r.length ∧ r.head? = r.getLast? := by
+  simp [ringValid]
+
+/-! non-vacuity: a multipolygon with a closed outer ring and an open one (two ways that do not close): without
+the option the open ring is dropped, with it the same relation feature has both -/
+def exInv : Data := {
+  nodes := [],
+  ways := [⟨7, [⟨1, 1, 1⟩, ⟨2, 5, 1⟩, ⟨3, 5, 5⟩], [], {}⟩, ⟨8, [⟨3, 5, 5⟩, ⟨4, 1, 5⟩], [], {}⟩,
+           ⟨9, [⟨5, 20, 20⟩, ⟨6, 30, 20⟩, ⟨7, 30, 30⟩, ⟨5, 20, 20⟩], [], {}⟩],
+  relations := [⟨100, [⟨.way, 7, "outer", 0, []⟩, ⟨.way, 8, "outer", 0, []⟩, ⟨.way, 9, "outer", 0, []⟩],
+    [("type", "multipolygon"), ("landuse", "forest")], {}⟩] }
+example : (convert {} (fun _ => false) exInv).map (fun f => (f.kind, f.id, f.geom)) =
+    [("relation", 100, .polygon [[(20, 20), (30, 20), (30, 30), (20, 20)]])] := by decide
+example : (convert (withInvalid {}) (fun _ => false) exInv).map (fun f => (f.kind, f.id, f.geom)) =
+    [("relation", 100, .multiPolygon [[[(20, 20), (30, 20), (30, 30), (20, 20)]], [[(1, 1), (5, 1), (5, 5), (1, 5)]]])] := by decide
 
 end OsmVerif.Props.C17
